@@ -10,7 +10,13 @@ def c06(A):
     subcap = prof in SUBCAP
     # inbound QoS 2 exchanges per address: id -> state
     exch = {0: {}, 1: {}}
+    ended_clean = []
     for (sev, evs) in A.steps:
+        # a clean session ends with its network connection: losses seen in the previous step
+        for a_ in ended_clean:
+            for st in exch[a_].values():
+                st["orphan"] = True
+        ended_clean = [e["a"] for e in evs if e["k"] == "lost" and e.get("clean")]
         ins = [e for e in evs if e["k"] == "in"]
         outs = [e for e in evs if e["k"] == "pkt" and e["pkt"] is not None
                 and e["pkt"]["t"] in ("PUBACK", "PUBREC", "PUBCOMP")]
@@ -182,10 +188,13 @@ def c07(A):
                 rt = A.rets.get(i2)
                 if rt is not None and not rt.get("raised"):
                     win = cl["info"]["n"]
-        pend_same_conn = [x for x in subs if x.op == r.op and x.conn == c.idx and x.i_ret < r.i_call
-                          and not x.called_at_return and not x.fired_before(r.i_call)]
+        # awaiting acknowledgement on this connection: requests made on it, and requests of an earlier
+        # connection that were sent again on it (an implementation may resume them instead of failing them)
+        pend_same_conn = [x for x in subs if x.op == r.op and x.a == r.a and x.i_ret < r.i_call
+                          and not x.called_at_return and not x.fired_before(r.i_call)
+                          and (x.conn == c.idx or any(e["conn"] == c.idx and e["i"] < r.i_call for e in x.tx))]
         inherited = [x for x in subs if x.op == r.op and x.a == r.a and x.conn < c.idx
-                     and not x.called_at_return and not x.fired_before(r.i_call)]
+                     and not x.called_at_return and not x.fired_before(r.i_call) and x not in pend_same_conn]
         n = len(pend_same_conn)
         o.dec("calls/%s" % r.op)
         wrote = [e for e in A.pkts if e.get("api") == r.i_call]
